@@ -298,7 +298,7 @@ def run(ctx: Ctx):
                     vv, _ = t.origins(V, lv, lx)
                     _, xx = t.origins(X, lv, lx)
                     missing = xx - vv
-                    if missing and fname == RELABEL_EXCEPTION[0] and isinstance(V, ast.Constant) and V.value is True:
+                    if missing and isinstance(V, ast.Constant) and V.value is True:
                         # named exception: LSPAny / LSPObject / LSPArray payloads are valid whatever they contain;
                         # it must be guarded by exactly that membership test
                         guard_ok = False
